@@ -775,7 +775,10 @@ pub fn oracle_c03(c: &Case, o: &RunOut) -> Result<(), String> {
     let heads200: Vec<&(usize, Wire)> = heads.iter().filter(|(_, w)| matches!(w, Wire::Head { status: 200, .. })).collect();
     for (k, e) in &log {
         if let LogEv::Done { i } = e {
-            if *i < c.reqs.len() && c.reqs[*i].body == 1 && tr.end_round[*i].map_or(true, |er| er > *k) {
+            // (not when the peer has already closed or reset its sending side: the body can no
+            //  longer arrive, the payload was terminated with an error and no reuse is possible)
+            let read_ended = c.rounds.iter().take(*k + 1).any(|r| r.rd != 0);
+            if *i < c.reqs.len() && c.reqs[*i].body == 1 && !read_ended && tr.end_round[*i].map_or(true, |er| er > *k) {
                 if let Some((hk, w)) = heads200.get(nth200) {
                     if !closing(w) {
                         return Err(format!("response to request {i} (poll {hk}) was encoded while {} body bytes were outstanding but does not announce close: {w:?}", c.reqs[*i].blen));
